@@ -141,22 +141,46 @@ func decodedKey(typ uint16, k string) bool {
 var errnoNames = uapi.ErrnoNames()
 
 // parseSomethingElse decodes two unrelated records completely: results handed out earlier must stay as they were.
-func parseSomethingElse() { parseOthers(5) }
+func parseSomethingElse() error { return parseOthers(5) }
 
-func parseOthers(n int) {
-	for _, l := range []string{
-		`type=SYSCALL msg=audit(1700000000.123:4711): arch=40000003 syscall=5 success=no exit=-13 a0=1 a1=2 a2=3 a3=4 items=1 ppid=7 pid=8 auid=9 uid=10 gid=11 euid=12 suid=13 fsuid=14 egid=15 sgid=16 fsgid=17 tty=pts9 ses=18 comm="other" exe="/bin/other" subj=a:b:c:s0 key="otherkey"`,
-		`type=USER_LOGIN msg=audit(1700000001.456:4712): pid=1 uid=0 auid=5 ses=6 msg='op=login acct="someone" exe="/bin/login" hostname=h addr=10.0.0.1 terminal=tty1 res=failed'`,
-		`type=EXECVE msg=audit(1700000002.789:4713): argc=3 a0="o0" a1="o1" a2=6F32`,
-		`type=SOCKADDR msg=audit(1700000003.000:4714): saddr=020000357F0000010000000000000000`,
-		`type=PROCTITLE msg=audit(1700000004.000:4715): proctitle=6F7468657200746974`,
-	}[:n] {
-		if m, err := auparse.ParseLogLine(l); err == nil {
-			_, _ = m.Data()
-			_, _ = m.Tags()
-			_ = m.ToMapStr()
+var otherLines = []string{
+	`type=SYSCALL msg=audit(1700000000.123:4711): arch=40000003 syscall=5 success=no exit=-13 a0=1 a1=2 a2=3 a3=4 items=1 ppid=7 pid=8 auid=9 uid=10 gid=11 euid=12 suid=13 fsuid=14 egid=15 sgid=16 fsgid=17 tty=pts9 ses=18 comm="other" exe="/bin/other" subj=a:b:c:s0 key="otherkey"`,
+	`type=USER_LOGIN msg=audit(1700000001.456:4712): pid=1 uid=0 auid=5 ses=6 msg='op=login acct="someone" exe="/bin/login" hostname=h addr=10.0.0.1 terminal=tty1 res=failed'`,
+	`type=EXECVE msg=audit(1700000002.789:4713): argc=3 a0="o0" a1="o1" a2=6F32`,
+	`type=SOCKADDR msg=audit(1700000003.000:4714): saddr=020000357F0000010000000000000000`,
+	`type=PROCTITLE msg=audit(1700000004.000:4715): proctitle=6F7468657200746974`,
+}
+
+func othersDigest(n int) string {
+	var b strings.Builder
+	for _, l := range otherLines[:n] {
+		m, err := auparse.ParseLogLine(l)
+		if err != nil {
+			fmt.Fprintf(&b, "error %v\n", err)
+			continue
 		}
+		d, derr := m.Data()
+		tg, terr := m.Tags()
+		fmt.Fprintf(&b, "%d %d %v | %q %v | %q %v | %q\n", m.RecordType, m.Sequence, m.Timestamp.UnixNano(), d, derr, tg, terr, fmt.Sprint(m.ToMapStr()))
 	}
+	return b.String()
+}
+
+// othersRef: how the fixed records decode when the process starts, before any generated input has been seen
+var othersRef = func() (r [6]string) {
+	for n := range r {
+		r[n] = othersDigest(n)
+	}
+	return r
+}()
+
+// parseOthers decodes n fixed records of other events. What they decode to never depends on what was parsed
+// before them: the result is compared with the one of process start.
+func parseOthers(n int) error {
+	if d := othersDigest(n); d != othersRef[n] {
+		return fmt.Errorf("fixed records decoded after this input differ from how they decoded when the process started:\n  now   %s\n  start %s", d, othersRef[n])
+	}
+	return nil
 }
 
 // sibling returns the record with every value cut in half or extended: decoding it first must not change how
@@ -194,7 +218,9 @@ func propC12(c C12Case) error {
 	if err != nil {
 		return fmt.Errorf("Data() of %q failed: %v (all fields lost)", raw, err)
 	}
-	parseSomethingElse() // what Data() returned must not depend on what is parsed afterwards
+	if err := parseSomethingElse(); err != nil { // what Data() returned must not depend on what is parsed afterwards, nor the other way round
+		return err
+	}
 	hexed, derived := false, false
 	fields := append(append(append([]kenc.F(nil), c.Rec.Fields...), c.Rec.User...), c.Rec.Tail...)
 	var archName string
